@@ -25,10 +25,23 @@ LkhNotWorse == IsLkh => IF E.kind = "lkh" THEN A_LkhNotWorse(E.in.m, E.in.path, 
 DbDisjoint == IsDb => A_DbDisjoint(E.act.clusters) /\ A_DbOnlyGivenPoints(E.in.order, E.act.clusters)
 DbGrown == IsDb => A_DbGrown(NbSets, E.in.minPts, E.act.clusters)
 DbCoreClustered == IsDb => A_DbCoreClustered(NbSets, E.in.minPts, E.in.order, E.act.clusters)
+\* the job-level wrapper (construction/clustering/dbscan): "exclude jobs without locations from clustering" - a job has a location when one
+\* of its tasks has a place with a location; the jobs left are clustered over the neighbours left, with at least 2 points for a core
+IsJobDb == E.kind = "jobdb" /\ Ok
+HasLoc(p) == E.in.shapes[p] \in {"single", "multi", "multi-mixed"}
+JobOrder == SelectSeq(E.in.order, HasLoc)
+JobNb == [p \in 1..Len(E.in.nb) |-> { q \in A_Range(E.in.nb[p]) : HasLoc(q) }]
+JobMinPts == IF E.in.minPts < 2 THEN 2 ELSE E.in.minPts
+JobDbDisjoint == IsJobDb => A_DbDisjoint(E.act.clusters) /\ A_DbOnlyGivenPoints(JobOrder, E.act.clusters)
+JobDbGrown == IsJobDb => A_DbGrown(JobNb, JobMinPts, E.act.clusters)
+JobDbCoreClustered == IsJobDb => A_DbCoreClustered(JobNb, JobMinPts, JobOrder, E.act.clusters)
 KmPartition == IsKm => A_KmPartition([i \in 1..E.in.n |-> i], E.act.clusters) /\ A_KmMedoidsDistinct(E.act.clusters)
 KmNearest == IsKm => A_KmNearest(E.in.d, E.act.clusters)
 HierPartition == IsHier => A_HierPartition([i \in 1..E.in.n |-> i], E.act.tiers) /\ A_HierRefines(E.act.tiers)
 HierNearest == IsHier => A_HierNearestAmongSiblings(E.in.d, E.act.tiers)
+J_JobDbDisjoint == Judge("JobDbDisjoint", JobDbDisjoint)
+J_JobDbGrown == Judge("JobDbGrown", JobDbGrown)
+J_JobDbCoreClustered == Judge("JobDbCoreClustered", JobDbCoreClustered)
 J_Terminates == Judge("Terminates", Terminates)
 J_NoPanic == Judge("NoPanic", NoPanic)
 J_LkhPermutation == Judge("LkhPermutation", LkhPermutation)
